@@ -36,7 +36,10 @@ STAT = ("mean", "var", "spread", "norm")
 INPLACE_OK = ("partial", "sync")       # documented to rewrite the given sequence; no copy is promised
 RULE = ("every vector of the bounded class (entries from a fixed set of halves, length 0..3 quick / 0..4 thorough) x every "
         "decorator of the TLA+ catalogue (kind x parameters x Python index selection: None, single, negative, tuples, "
-        "out-of-range) x input kind (list, ndarray); expected result / allowed ranges emitted by TLC; plus every script of "
+        "out-of-range) x input kind (list, ndarray); expected result / allowed ranges emitted by TLC; impose_as additionally on "
+        "every TLC-enumerated mask (all lists of <= 3 pairs on 4 positions forming a forest: chains, fan-in, fan-out, trees, both "
+        "orientations, every list order, negative spellings; thorough: + <= 4 pairs on 5 positions) x offsets None/0/1/-0.5 x every "
+        "vector of length 0..4 over {0,1.5} (thorough {-0.5,0,1.5}; length 5 over {0,1.5}); plus every script of "
         "2 (quick) / 3 (thorough) steps in script mode; a case is non-trivial when the premise holds and the specification "
         "changes at least one entry (or allows a value other than the input); distinct = (decorator, vector, input kind)")
 
@@ -45,7 +48,7 @@ RULE = ("every vector of the bounded class (entries from a fixed set of halves, 
 CONFIGS = {
     "quick": [("MC_Transforms_quick.cfg", 4), ("MC_Transforms_tens.cfg", 1), ("MC_TransformsAs_quick.cfg", 7)],
     "thorough": [("MC_Transforms_thorough.cfg", 15), ("MC_Transforms_tens.cfg", 1), ("MC_TransformsAs_thorough.cfg", 13),
-                 ("MC_TransformsAs5_thorough.cfg", 31)],
+                 ("MC_TransformsAs5_thorough.cfg", 8)],
 }
 SCRIPT_CFG = {"quick": "MC_Transforms_script.cfg", "thorough": "MC_Transforms_script_thorough.cfg"}
 MODULES = ("MC_TransformsAs5", "MC_TransformsAs", "MC_Transforms")
@@ -362,7 +365,7 @@ def replay_cases(header, lines, mc, mt, np, corrupt=False):
     ascls = header.get("ascls")
     fns = {}
     res = {"evaluations": 0, "nontrivial": set(), "undefined": 0, "viol": {}, "nviol": {}, "samples": [],
-           "classes": {}, "lines": len(lines), "per_kind": {}}
+           "classes": {}, "lines": len(lines), "per_kind": {}, "pair_order": {}, "pair_order_example": None}
 
     def add_violation(key, detail, what):
         res["nviol"][key] = res["nviol"].get(key, 0) + 1
@@ -454,6 +457,11 @@ def replay_cases(header, lines, mc, mt, np, corrupt=False):
                 # impose_as masks whose list is not "source first" form their own family of classes (as:pair-order:...)
                 if acl and acl[2]:
                     key = ":".join([k, "pair-order", LISTING[acl[2]], pr])
+                    if OPTS["pair_order_premise"]:
+                        res["pair_order"][key] = res["pair_order"].get(key, 0) + 1
+                        if res["pair_order_example"] is None and pr == "wrong-value":
+                            res["pair_order_example"] = "%s on %s: spec %s, mystic %s" % (describe(d, S), xs, [e / S for e in exp], got.get("list"))
+                        continue
                 else:
                     key = ":".join([k, pr] + quals)
                 add_violation(key, {"decorator": describe(d, S), "record": d, "input": xs, "expected(spec units 1/%d)" % S: exp,
@@ -542,7 +550,10 @@ def replay_scripts(header, lines, mc, mt, np, stride=1, offset=0):
 
 # ------------------------------------------------------------------------------------------ orchestration
 CACHE = {}          # (cfg, part, nparts) -> (header, lines, stats): filled by the self-test so TLC runs once
-OPTS = {"corrupt": False}
+# impose_as masks whose list is not "source first" (classes as:pair-order:*): by default their disagreements are counted and
+# printed as a NOTE but not judged (premise: the list names each component's source first, like every docstring example);
+# C16_PAIR_ORDER=judge reports them as violations (see new_check and the FINDING in the evidence file)
+OPTS = {"corrupt": False, "pair_order_premise": os.environ.get("C16_PAIR_ORDER", "judge") != "judge"}
 FLAGS = {"fixes": False}
 
 
@@ -631,6 +642,16 @@ def run_all(ck, a, jobs):
                 else:
                     ck.violations += rest
                     ck.viol_keys[key] = ck.viol_keys.get(key, 0) + rest
+    po, po_ex = {}, None
+    for res in results:
+        for k, v in res.get("pair_order", {}).items():
+            po[k] = po.get(k, 0) + v
+        po_ex = po_ex or res.get("pair_order_example")
+    if po:
+        ck.extra["FINDING impose_as pair order (disagreements observed, NOT judged; C16_PAIR_ORDER=judge makes them violations)"] = {
+            "classes": po, "example": po_ex}
+        print("NOTE: impose_as depends on the order in which the pairs of a mask are listed (%d disagreements in %d classes as:pair-order:*, "
+              "not judged; run with C16_PAIR_ORDER=judge): %s" % (sum(po.values()), len(po), po_ex))
     ck.extra["premise_not_met_cases(skipped)"] = undefined
     ck.extra["case_classes"] = classes
     ck.extra["per_decorator_kind[vector x decorator pairs, non-trivial, premise not met]"] = per_kind
@@ -649,9 +670,18 @@ def new_check(a):
         "decorators are compared exactly when all divisors are powers of two and to 1e-12 otherwise (irrational variance scales: mean and "
         "variance of the output to 1e-9)",
         "documented premises are honoured (TLA+ operator Defined): monotonic/sorting index tuples without out-of-range or aliasing members "
-        "(the code raises), impose_at without indices below -len(x) (raises), impose_unique input drawn from the allowed set, impose_as / "
-        "synchronized masks star-shaped (no chains: their order of evaluation is documented as unspecified), masked keys inside the "
-        "resulting sequence, non-degenerate spread / variance / sum for with_spread / with_variance / normalized",
+        "(the code raises), impose_at without indices below -len(x) (raises), impose_unique input drawn from the allowed set, "
+        "synchronized masks star-shaped (no chains: 'operations within a single mask are unordered' says its docstring), masked keys "
+        "inside the resulting sequence, non-degenerate spread / variance / sum for with_spread / with_variance / normalized",
+        "impose_as (general masks): pairs with an out-of-range member are ignored; the others must admit y[j] = y[i] + offset for all "
+        "pairs at once (no directed cycle / self pair, no entry reached at two different depths: operator AsGraded) and must not spell "
+        "one position in two ways (0 and -n); outside this premise nothing is judged.  The source of a component is its entry without "
+        "incoming pair; of several such entries (fan-in) the one whose pair is listed first (docstring example: (0,1),(3,1) gives "
+        "x3 := x0); the source keeps its value, every other entry becomes source + offset * depth; f(f(x)) == f(x) also with offset",
+        "impose_as masks are passed as lists; by default a mask is only JUDGED when its list names each component's source first and "
+        "every later pair shares a member with an earlier one (as in every docstring example; operator AsListing = 0); the other list "
+        "orders are replayed too, their disagreements (mystic's result depends on the list order although the docstring calls the mask "
+        "a set) are counted under 'FINDING impose_as pair order' and become violations as:pair-order:* with C16_PAIR_ORDER=judge",
         "an out-of-range member of an index selection is ignored and the remaining members still count (TLA+ operator Sel); a tie of "
         "`discrete` goes to the lower member, `integers/rounded/precision` round halves to even, clip=True goes to an end of a nearest interval",
         "partial and synchronized rewrite the sequence they are given (no copy promised); every other decorator must leave its argument unchanged",
